@@ -33,13 +33,18 @@ Toks == [ser : Sers,
          \* general serialization only: the entry under test is preceded by another (valid) signature entry whose
          \* protected header agrees / disagrees on b64.  Every entry is decoded under ITS OWN protected header: what
          \* precedes it changes nothing below.
-         before : {"nothing", "entry_same_b64", "entry_other_b64"}]
+         before : {"nothing", "entry_same_b64", "entry_other_b64"},
+         \* JSON serializations only: the `protected` member is written with a JSON escape sequence ("\u0065yJ...").  Named
+         \* deviation EscapedMembersRefused: the decoder borrows its strings from the input and refuses such a token; a
+         \* decoder that accepts it must still check the signature over the UNESCAPED member value exactly as received.
+         escapes : {"none", "protected_member"}]
 
 \* compact has no unprotected header and no "missing" payload member (the segment is always there)
 Shaped(t) == /\ (t.ser = "compact" => (t.algAt # "unprotected" /\ t.attached # "missing"))
              \* re-encoding only differs from the received bytes when the received header is not canonical
              /\ (t.sig = "over_reencoded_SI" => t.shape = "noncanonical")
              /\ (t.before # "nothing" => t.ser = "general")
+             /\ (t.escapes # "none" => (t.ser # "compact" /\ t.before = "nothing"))
 
 OnePayload(t) == (t.attached = "present") # t.detached        \* exactly one source
 
@@ -50,7 +55,7 @@ Init == tok \in {t \in Toks : Shaped(t)} /\ pc = "received" /\ item = None /\ vc
 
 Decode ==
   /\ pc = "received"
-  /\ IF OnePayload(tok)
+  /\ IF OnePayload(tok) /\ tok.escapes = "none"
      THEN /\ pc' = "decoded"
           /\ item' = [si |-> "P.Y",
                       claims |-> IF tok.b64 = "false" THEN "Y" ELSE "b64dec(Y)",
@@ -81,6 +86,7 @@ ClaimsAreSignedPayload == pc \in {"decoded", "verified"} => item.claims = (IF to
 NeverFromUnprotected == item.alg # "none" => tok.algAt = "protected"
 
 Final == pc \in {"rejected", "refused", "verified"}
-Emit == ~Final \/ PrintT(<<"CASE", ToJson([tok |-> tok, outcome |-> pc, decoded |-> item # None,
+Refusal == IF ~OnePayload(tok) THEN "payload_sources" ELSE IF tok.escapes # "none" THEN "escaped_member" ELSE "none"
+Emit == ~Final \/ PrintT(<<"CASE", ToJson([tok |-> tok, outcome |-> pc, decoded |-> item # None, refusal |-> Refusal,
                                             verifier_called |-> vcall # NoCall])>>)
 =============================================================================
